@@ -179,9 +179,13 @@ func HotSpotParamRuleJsonArrayParser(src []byte) (interface{}, error) {
 		desc := fmt.Sprintf("Fail to convert source bytes to []*hotspot.Rule, err: %s", err.Error())
 		return nil, NewError(ConvertSourceError, desc)
 	}
-	rules := make([]*hotspot.Rule, len(hotspotRules))
-	for i, hotspotRule := range hotspotRules {
-		rules[i] = &hotspot.Rule{
+	rules := make([]*hotspot.Rule, 0, len(hotspotRules))
+	for _, hotspotRule := range hotspotRules {
+		if hotspotRule == nil {
+			// a JSON null element describes no rule (LoadRules skips nil rules as well)
+			continue
+		}
+		rules = append(rules, &hotspot.Rule{
 			ID:                hotspotRule.ID,
 			Resource:          hotspotRule.Resource,
 			MetricType:        hotspotRule.MetricType,
@@ -193,7 +197,7 @@ func HotSpotParamRuleJsonArrayParser(src []byte) (interface{}, error) {
 			DurationInSec:     hotspotRule.DurationInSec,
 			ParamsMaxCapacity: hotspotRule.ParamsMaxCapacity,
 			SpecificItems:     parseSpecificItems(hotspotRule.SpecificItems),
-		}
+		})
 	}
 	return rules, nil
 }
